@@ -101,14 +101,6 @@ def run_mapping(
     if 'tmp_dir' not in config:
         raise RuntimeError("did not specify tmp_dir")
 
-    if config['tmp_dir'] is not None:
-        timestamp = get_timestamp().replace('-', '')
-        tmp_dir = tempfile.mkdtemp(
-            dir=config['tmp_dir'],
-            prefix=f'cell_type_mapper_{timestamp}_')
-    else:
-        tmp_dir = None
-
     if output_path is not None:
         output_path = pathlib.Path(output_path)
 
@@ -130,6 +122,16 @@ def run_mapping(
                     raise RuntimeError(
                         "unable to write to "
                         f"{pth.resolve().absolute()}")
+
+    # (scratch space is created only after the output locations have
+    # been checked, so that a refused run leaves nothing behind)
+    if config['tmp_dir'] is not None:
+        timestamp = get_timestamp().replace('-', '')
+        tmp_dir = tempfile.mkdtemp(
+            dir=config['tmp_dir'],
+            prefix=f'cell_type_mapper_{timestamp}_')
+    else:
+        tmp_dir = None
 
     tmp_result_dir = None
     try:
